@@ -830,7 +830,7 @@ RepoSyncAll ==
 \* (Restriction of this model: the parent has one resource class.)
 AddForeign(f, p, R) ==
     /\ f \in Foreign /\ cstate[f] = "none" /\ parent[f] \in {"none", p}
-    /\ IsCa(p) /\ exists[p] /\ SlotsOf(p) = {p}
+    /\ IsCa(p) /\ exists[p] /\ \A s \in SlotsOf(p) \ {p} : parent[s] = "none"
     /\ R # NoRes /\ R \subseteq Holdings(p)
     /\ parent' = [parent EXCEPT ![f] = p]
     /\ hasp' = [hasp EXCEPT ![f] = TRUE]
@@ -884,12 +884,19 @@ FIssue(f, x, L) ==
 \* revocation request for the child's key x: always confirmed; the
 \* certificate (if there is one) is withdrawn and revoked; the parent tells
 \* the child to synchronise (ChildKeyRevoked; dropped for a child that is
-\* not hosted here)
-FRevoke(f, x) ==
+\* not hosted here).
+\* (inuse: the parent's record of the child still lists the key as in use.
+\* That is so while the key has a certificate -- and, not modelled as state,
+\* after the certificate went away together with the parent's resource
+\* class, certauth.rs ResourceClassRemoved leaves the children's records
+\* alone: the request is then processed like an effective one, a
+\* publication without content follows.  The trace specification takes the
+\* value from the observed record.)
+FRevoke(f, x, inuse) ==
     /\ FCall(f) /\ x \in {"cur", "new"}
     /\ LET call == CallIn(f, iss[f], sus[f])
            p == parent[f]
-           had == call.iss[x] # NoRes
+           had == call.iss[x] # NoRes \/ inuse
        IN  /\ iss' = [iss EXCEPT ![f] = [call.iss EXCEPT ![x] = NoRes]]
            /\ sus' = [sus EXCEPT ![f] = call.sus]
            /\ tasks' = tasks \cup FWake(f) \cup (IF had THEN {SR(p), SP(f)} ELSE {})
@@ -984,7 +991,9 @@ ApiNext ==
     \/ "foreign" \in Ops /\ \E f \in Foreign :
             \/ \E R \in SUBSET Res : AddForeign(f, ParentOf[f], R)
             \/ FList(f)
-            \/ \E x \in {"cur", "new"} : FRevoke(f, x) \/ \E L \in SUBSET Res : FIssue(f, x, L)
+            \/ \E x \in {"cur", "new"} :
+                   \/ \E u \in BOOLEAN : FRevoke(f, x, u)
+                   \/ \E L \in SUBSET Res : FIssue(f, x, L)
 
 TaskNext == \E c \in AllCA : Task(c)
 
